@@ -125,6 +125,7 @@ type world struct {
 	missG   map[int]*flight // per tree: the thread on the miss path
 	parked  map[int][]tokKey
 	spare   map[int]*lib.Gate // per tree: armed gate waiting for the next timer to fire
+	armed   map[int]*lib.Gate // per tree: gate at the point where the removal goroutine has read the timeout
 	held    []heldTimer       // fired timers held before their locked section, in firing order
 	chanOf  map[int]int       // per tree: channel id of the scheduled removal
 	next    int
@@ -294,6 +295,16 @@ func (w *world) noteRemoval(i int, before bool, long bool) {
 	if !before && after {
 		w.chanOf[i] = w.next
 		w.next++
+		// the removal goroutine reads the store's timeout when it starts: wait for that,
+		// so that a later change of the timeout cannot affect this timer
+		if g := w.armed[i]; g != nil {
+			if !g.WaitHit(wait) {
+				w.failed = "removal goroutine did not start"
+				return
+			}
+			g.Release()
+			w.armed[i] = nil
+		}
 		if !long {
 			// the timer is short: wait until it has fired and is held before its locked section
 			g := w.spare[i]
@@ -310,6 +321,9 @@ func (w *world) noteRemoval(i int, before bool, long bool) {
 
 // setTimer prepares the tree store for a removal that the next action may schedule
 func (w *world) setTimer(i int, long bool) {
+	if w.armed[i] == nil {
+		w.armed[i] = w.sched.Block("treestorage.timerArmed", 1, w.matchTree(i))
+	}
 	if long {
 		w.ovX.VerifSetTreeTimeout(time.Hour)
 		return
@@ -562,7 +576,7 @@ func run(raw json.RawMessage) lib.Case {
 	roster := lt.GenRosterFromHost(servers...)
 	w := &world{lt: lt, x: servers[0], p: servers[1], ovX: servers[0].VerifOverlay(), ovP: servers[1].VerifOverlay(),
 		trees: mkTrees(roster), sched: lib.NewSched(), tokens: map[tokKey]*onet.Token{}, pid: onet.ProtocolNameToID(protoName),
-		inflite: map[tokKey]*flight{}, missG: map[int]*flight{}, parked: map[int][]tokKey{}, spare: map[int]*lib.Gate{},
+		inflite: map[tokKey]*flight{}, missG: map[int]*flight{}, parked: map[int][]tokKey{}, spare: map[int]*lib.Gate{}, armed: map[int]*lib.Gate{},
 		chanOf: map[int]int{}}
 	onet.SetVerifHook(w.sched.Hook)
 	if os.Getenv("VERIF_DEBUG") != "" {
